@@ -155,6 +155,8 @@ class C13a(Monitor):
             r.report("C13", f"swim-on-in:{f.split('_')[0]}", f"swim pump on while filtration is {f} (swim {s.state('Swim') if _alive(r,'Swim') else 'DEAD'})")
         elif f.startswith("wintering") and _alive(r, "Swim") and s.state("Swim") in ("timed", "continuous"):
             r.report("C13", "swim-user-request-in-wintering", f"a user swim request was accepted while filtration is {f}: swim is {s.state('Swim')}, pump on")
+        elif f.startswith("wintering") and _alive(r, "Swim") and s.state("Swim") in ("wintering_waiting", "halt"):
+            r.report("C13", f"swim-on-in-wintering:{s.state('Swim')}", f"swim pump on in wintering while its controller is {s.state('Swim')}: started neither by a request nor by the wintering cycle")
 
 
 class C15a(Monitor):
